@@ -263,3 +263,17 @@ Definition followed_ok (plan : list N) (tr : list (event N)) (r : fiber_result N
 Definition prop_trace_full (p : policy) (idem : bool) (plan : list N) (tr : list (event N))
            (r : fiber_result N) : bool :=
   prop_trace_ok p idem (List.length plan) tr && followed_ok plan tr r.
+
+(* the failed attempts of a trace as the retry session saw them, and the decisions recorded *)
+Fixpoint attempt_infos (idem : bool) (tr : list (event N)) : list request_info :=
+  match tr with
+  | [] => []
+  | EvAttempt _ c (AErr e _) :: rest => mk_ri e idem c :: attempt_infos idem rest
+  | _ :: rest => attempt_infos idem rest
+  end.
+Fixpoint attempt_decisions (tr : list (event N)) : list decision :=
+  match tr with
+  | [] => []
+  | EvAttempt _ _ (AErr _ d) :: rest => d :: attempt_decisions rest
+  | _ :: rest => attempt_decisions rest
+  end.
